@@ -686,18 +686,18 @@ example :
     completed with "-l%u" / "%h" as `fixup` says), then the command words -- every one of them with
     %h %u %n %% replaced and everything else byte for byte: quotes, backslashes (also trailing ones)
     and unknown %x sequences are not touched -/
-theorem ssh_argv_exact (e : Env) (append args dshpath : Option Ssh.Str) (luser : Ssh.Str) (pcp : Bool)
+theorem ssh_argv_exact (esc : Bool) (e : Env) (append args dshpath : Option Ssh.Str) (luser : Ssh.Str) (pcp : Bool)
     (words : List Ssh.Str) (cmd tail : Ssh.Str)
-    (hn : ∀ a ∈ Ssh.sshArgv append args dshpath luser e.user pcp words cmd, nul ∉ a) :
-    Ssh.sshCall repaired e append args dshpath luser pcp words cmd tail =
-      some ("ssh".toList :: (Ssh.sshArgv append args dshpath luser e.user pcp words cmd).map (expected e)) := by
+    (hn : ∀ a ∈ Ssh.sshArgv esc append args dshpath luser e.user pcp words cmd, nul ∉ a) :
+    Ssh.sshCall repaired esc e append args dshpath luser pcp words cmd tail =
+      some ("ssh".toList :: (Ssh.sshArgv esc append args dshpath luser e.user pcp words cmd).map (expected e)) := by
   obtain ⟨l, hl, hv, _⟩ := argv_length_preserved e "ssh".toList _ tail hn
   simp only [Ssh.sshCall, hl, Option.map_some, hv, expectedArgv]
 
 /-- ... hence command words without '%' reach ssh verbatim, whatever else they contain -/
 theorem ssh_command_verbatim (e : Env) (append args dshpath : Option Ssh.Str) (luser : Ssh.Str)
     (w0 : Ssh.Str) (rest : List Ssh.Str) (cmd : Ssh.Str) (hp : ∀ w ∈ w0 :: rest, '%' ∉ w) :
-    (Ssh.sshArgv append args dshpath luser e.user false (w0 :: rest) cmd).map (expected e) =
+    (Ssh.sshArgv false append args dshpath luser e.user false (w0 :: rest) cmd).map (expected e) =
       (Ssh.fixup (Ssh.template append args dshpath) (luser != e.user)).map (expected e) ++ (w0 :: rest) := by
   have : (w0 :: rest).map (expected e) = w0 :: rest := by
     have gen : ∀ (l : List Ssh.Str), (∀ w ∈ l, '%' ∉ w) → l.map (expected e) = l := by
@@ -709,7 +709,35 @@ theorem ssh_command_verbatim (e : Env) (append args dshpath : Option Ssh.Str) (l
         simp only [List.map_cons]
         rw [no_percent_id e a (h a (by simp)), ih (fun w hw => h w (by simp [hw]))]
     exact gen _ hp
-  simp only [Ssh.sshArgv, Bool.false_or, List.isEmpty_cons, Bool.false_eq_true, if_false, List.map_append, this]
+  simp only [Ssh.sshArgv, Bool.false_or, List.isEmpty_cons, Bool.false_eq_true, if_false, List.map_append,
+    List.map_map, Function.comp_def, List.map_id', this]
+
+/-- doubling the '%' is the inverse of the formatting, for every string and every (host, user, rank) -/
+theorem expected_escapePct (e : Env) (w : Ssh.Str) : expected e (Ssh.escapePct w) = w := by
+  induction w with
+  | nil => simp [Ssh.escapePct, expected_nil]
+  | cons c rest ih =>
+    by_cases hc : c = '%'
+    · subst hc
+      simp only [Ssh.escapePct, if_true]
+      rw [expected_esc, ih]
+      simp [escTok, render]
+    · simp only [Ssh.escapePct, hc, if_false]
+      rw [expected_cons_lit e c _ hc, ih]
+
+/-- WITH findings/C09-sshpct.patch the command words reach ssh byte for byte -- `%h`, `%%`, a lone
+    trailing '%', quotes, backslashes, anything -- behind the expanded template -/
+theorem ssh_command_verbatim_repaired (e : Env) (append args dshpath : Option Ssh.Str) (luser : Ssh.Str)
+    (w0 : Ssh.Str) (rest : List Ssh.Str) (cmd : Ssh.Str) :
+    (Ssh.sshArgv true append args dshpath luser e.user false (w0 :: rest) cmd).map (expected e) =
+      (Ssh.fixup (Ssh.template append args dshpath) (luser != e.user)).map (expected e) ++ (w0 :: rest) := by
+  have gen : ∀ (l : List Ssh.Str), (l.map fun w => Ssh.escapePct w).map (expected e) = l := by
+    intro l
+    induction l with
+    | nil => rfl
+    | cons a r ih => simp only [List.map_cons, expected_escapePct, ih]
+  simp only [Ssh.sshArgv, Bool.false_or, List.isEmpty_cons, Bool.false_eq_true, if_false, if_true, List.map_append]
+  rw [gen]
 
 /-- the default template "-2 -a -x %h" for a remote user that differs from the local one -/
 theorem ssh_default_fixup :
